@@ -365,10 +365,17 @@ def gen_case(ch: Chooser, excl=()):
             alt = options[key]          # (FORD rejects a name present in both tables)
         override = {"key": key, "file_value": alt}
         formats.append(base + ">config")
+    flag_key = None
+    cands = sorted(k for k in options if k in FLAGS and FLAGS[k][1] in ("one", "list") and k not in cli)
+    if spec is None and cands and "flag_format" not in excl and ch.bool(1, 2):
+        flag_key = ch.choice(cands)
+        if "output_dir" in cands and "exclude_dir" in options and ch.bool(1, 2):
+            flag_key = "output_dir"
+        formats.append("md+flag")
     tkinds = sorted({kinds[n] for n in options})
     own_line = "md_own_line" not in excl and ch.bool(1, 4)
     return {"options": options, "cli": cli, "special": spec, "cwd": cwd, "formats": formats, "override": override,
-            "md_own_line": own_line,
+            "md_own_line": own_line, "flag_key": flag_key,
             "classes": ["kind:" + k for k in tkinds] + (["special:" + spec["kind"]] if spec else []) + (["cli"] if cli else []) +
                        (["md:key-on-own-line"] if own_line else []),
             "nontrivial": len(options) >= 3 and len(tkinds) >= 2}
@@ -393,7 +400,14 @@ def check(case) -> Result:
                 extra = [f"{spec['key']}: {spec['value']}"]
             else:
                 extra = [f"{spec['key']} = {toml_str(spec['value'])}"]
-        files, c = render(fmt, options, kinds, extra, case.get("override"))
+        if fmt == "md+flag":
+            # one option leaves the file and is given by its command-line flag instead: same effective settings
+            key = case["flag_key"]
+            files, c = render("md", {k: v for k, v in options.items() if k != key}, kinds, extra)
+            c = dict(c)
+            c[key] = options[key]
+        else:
+            files, c = render(fmt, options, kinds, extra, case.get("override"))
         c.update(cli)
         out = load(files, c, case["cwd"])
         results[fmt] = out
